@@ -1,6 +1,7 @@
 import PhysisModel.Proofs.GameData
 import PhysisModel.Model.Extract
 import PhysisModel.Proofs.Archive
+import PhysisModel.Proofs.BinrwTieIndex
 /-!
 # C01 — archive lookup finds every stored game path, and only stored paths, history-independently
 
@@ -216,5 +217,47 @@ example (qs : List Query) :
   rw [this]; rfl
 example : (decodeEntryData 0x00000257).dataFileId = 3 ∧ (decodeEntryData 0x00000257).offset = 0x1280 := by
   decide
+
+end Physis.C01
+
+/-! ### T4: binrw declarations regenerated from the source
+
+`Generated/BinrwIndex.lean` is re-translated from the `#[binrw]` declarations of `src/sqpack/mod.rs`,
+`src/sqpack/index.rs` and `src/common.rs` on every run (`lib/binrw2lean.py`); each theorem says that a
+hand-written reader of `Model/Index.lean` is exactly `Layout.read` of the regenerated descriptor
+followed by a pure projection (`Proofs/BinrwTieIndex.lean`), for all inputs. -/
+namespace Physis.C01
+open Physis.Binrw Physis.Generated
+
+theorem c01_binrw_SqPackHeader (l : Bytes) :
+    Index.readSqPackHeader l =
+      via BinrwTie.Index.sqPackHeaderOf (Layout.read BinrwTie.Index.endian BinrwIndex.sqPackHeader l) :=
+  BinrwTie.Index.readSqPackHeader_eq_generated l
+
+theorem c01_binrw_SegementDescriptor (l : Bytes) :
+    Index.readDescriptor l =
+      via BinrwTie.Index.descriptorOf (Layout.read BinrwTie.Index.endian BinrwIndex.segementDescriptor l) :=
+  BinrwTie.Index.readDescriptor_eq_generated l
+
+theorem c01_binrw_SqPackIndexHeader (l : Bytes) :
+    Index.readIndexHeader l =
+      via BinrwTie.Index.indexHeaderOf (Layout.read BinrwTie.Index.endian BinrwIndex.sqPackIndexHeader l) :=
+  BinrwTie.Index.readIndexHeader_eq_generated l
+
+theorem c01_binrw_DataEntry (n : Nat) (l : Bytes) :
+    Index.readRecords 256 0 n l =
+      (Kind.read BinrwTie.Index.endian [] (.array (.lit n) (.struct BinrwIndex.dataEntry)) l).map (·.2) :=
+  BinrwTie.Index.readRecords_data_eq_generated n l
+
+theorem c01_binrw_FolderEntry (n : Nat) (l : Bytes) :
+    Index.readRecords 12 4 n l =
+      (Kind.read BinrwTie.Index.endian [] (.array (.lit n) (.struct BinrwIndex.folderEntry)) l).map (·.2) :=
+  BinrwTie.Index.readRecords_folder_eq_generated n l
+
+/-- non-vacuity: the generated header layout accepts a well-formed 1024-byte header and the
+projection keeps platform, size, version and file type -/
+example : (via BinrwTie.Index.descriptorOf (Layout.read .little BinrwIndex.segementDescriptor
+    ([1,0,0,0, 2,0,0,0, 3,0,0,0] ++ List.replicate 60 0))).map (fun x => (x.1.count, x.1.offset, x.1.size, x.2.length))
+    = some (1, 2, 3, 0) := by decide +kernel
 
 end Physis.C01
